@@ -40,9 +40,9 @@ def mm : Op R → Nat → MatF R → MatV R
   | dense _ r c a, b, X => forceV r b (mmul c a X)
   | tri _ r c _ a, b, X => forceV r b (mmul c a X)
   | sparse _ r c ents, b, X => forceV r b (mmul c (sparseDen ents) X)
-  | scalar _ s _, _, X => ⟨smulM s X⟩
-  | eye _ _, _, X => ⟨X⟩
-  | prod Ms, b, X => ⟨Ms.foldr (fun M acc => (M.mm b acc).f) X⟩
+  | scalar _ s _, _, X => MatV.of (smulM s X)
+  | eye _ _, _, X => MatV.of (X)
+  | prod Ms, b, X => Ms.foldr (fun M acc => M.mm b acc.f) (MatV.of X)
   | sum Ms, b, X =>
       let r := sumMatmat (Ms.map (fun M => fun Y => (M.mm b Y).f)) X
       forceV ((Ms.map (·.rows)).head?.getD 0) b r.f
@@ -58,17 +58,17 @@ def mm : Op R → Nat → MatF R → MatV R
       let r := bdiagMatmat
         ((Ms.map (fun M => (⟨M.rows, M.cols, M.den.f, fun b' m => (M.mm b' m).f⟩ : FacAct R))).zip mults) b X
       forceV (dotSum (Ms.map (·.rows)) mults) b r.f
-  | diag _ _ d, _, X => ⟨fun i j => d i * X i j⟩
-  | tridiag _ n al be ga, _, X => ⟨tridiagMatmat n al be ga X⟩
-  | transpose A, b, X => ⟨transposeM (A.rmm b (transposeM X)).f⟩
-  | adjoint A, b, X => ⟨transposeM (conjM (A.rmm b (transposeM (conjM X))).f)⟩
+  | diag _ _ d, _, X => MatV.of (fun i j => d i * X i j)
+  | tridiag _ n al be ga, _, X => MatV.of (tridiagMatmat n al be ga X)
+  | transpose A, b, X => MatV.of (transposeM (A.rmm b (transposeM X)).f)
+  | adjoint A, b, X => MatV.of (transposeM (conjM (A.rmm b (transposeM (conjM X))).f))
   | sliced A s0 s1, b, X =>
       let r := slicedMatmat (fun Y => (A.mm b Y).f) (idxR A s0) (idxC A s1) X
       forceV (idxR A s0).length b r.f
-  | perm _ p, _, X => ⟨permMatmat p X⟩
+  | perm _ p, _, X => MatV.of (permMatmat p X)
   | concat ax Ms, b, X =>
-      if ax then ⟨hstack (Ms.map (fun M => (b, (M.mm b X).f)))⟩
-      else ⟨vstack (Ms.map (fun M => (M.rows, (M.mm b X).f)))⟩
+      if ax then hcatMatmat (Ms.map (fun M => (M.cols, fun Y => (M.mm b Y).f))) X
+      else MatV.of (vstack (Ms.map (fun M => (M.rows, (M.mm b X).f))))
   | house _ n v beta, b, X => forceV n b (houseMatmat n v beta X)
   | generic A, b, X => A.mm b X
   | annot _ A, b, X => A.mm b X
@@ -80,13 +80,13 @@ def rmm : Op R → Nat → MatF R → MatV R
   | tri _ r c _ a, b, X => forceV b c (mmul r X a)
   | sparse _ r c ents, b, X =>
       forceV b c (transposeM (mmul r (transposeM (sparseDen ents)) (transposeM X)))
-  | prod Ms, b, X => ⟨Ms.foldl (fun acc M => (M.rmm b acc).f) X⟩
+  | prod Ms, b, X => Ms.foldl (fun acc M => M.rmm b acc.f) (MatV.of X)
   | sum Ms, b, X =>
       let r := sumMatmat (Ms.map (fun M => fun Y => (M.rmm b Y).f)) X
       forceV b ((Ms.map (·.cols)).head?.getD 0) r.f
-  | diag _ _ d, _, X => ⟨fun i j => d j * X i j⟩
-  | transpose A, b, X => ⟨transposeM (A.mm b (transposeM X)).f⟩
-  | adjoint A, b, X => ⟨transposeM (conjM (A.mm b (transposeM (conjM X))).f)⟩
+  | diag _ _ d, _, X => MatV.of (fun i j => d j * X i j)
+  | transpose A, b, X => MatV.of (transposeM (A.mm b (transposeM X)).f)
+  | adjoint A, b, X => MatV.of (transposeM (conjM (A.mm b (transposeM (conjM X))).f))
   | sliced A s0 s1, b, X =>
       let r := slicedRmatmat (fun Y => (A.rmm b Y).f) (idxR A s0) (idxC A s1) X
       forceV b (idxC A s1).length r.f
@@ -108,20 +108,20 @@ end
 
 /-- `A.to_dense()` -/
 def td : Op R → MatV R
-  | dense _ _ _ a => ⟨a⟩
-  | tri _ _ _ _ a => ⟨a⟩
+  | dense _ _ _ a => MatV.of (a)
+  | tri _ _ _ _ a => MatV.of (a)
   | kron Ms =>
       match Ms.map (fun M => (⟨M.rows, M.cols, M.td.f, fun _ m => m⟩ : FacAct R)) with
-      | [] => ⟨eyeM⟩
+      | [] => MatV.of (eyeM)
       | F :: Fs => forceV ((F :: Fs).map (·.r)).prod ((F :: Fs).map (·.c)).prod (kronDense F.r F.c F.a Fs)
   | kronsum Ms =>
       match Ms.map (fun M => (⟨M.rows, M.cols, M.td.f, fun _ m => m⟩ : FacAct R)) with
-      | [] => ⟨eyeM⟩
+      | [] => MatV.of (eyeM)
       | F :: Fs => forceV ((F :: Fs).map (·.r)).prod ((F :: Fs).map (·.c)).prod (kronSumDense F.r F.a Fs)
   | bdiag Ms mults =>
       forceV (dotSum (Ms.map (·.rows)) mults) (dotSum (Ms.map (·.cols)) mults)
         (bdiagDen ((Ms.map (fun M => (⟨M.rows, M.cols, M.td.f, fun _ m => m⟩ : FacAct R))).zip mults))
-  | diag _ _ d => ⟨diagM d⟩
+  | diag _ _ d => MatV.of (diagM d)
   | annot a A =>
       if A.hasExplicitTd then A.td
       else if 8 * A.rows < A.cols then (annot a A).rmm A.rows eyeM else A.mm A.cols eyeM
